@@ -92,11 +92,6 @@ func calculate(doc billable) error {
 		rr = r.GetRoundingRule()
 	}
 
-	// Do we need to deal with the customer-rates tag?
-	if doc.HasTags(tax.TagCustomerRates) {
-		applyCustomerRates(doc)
-	}
-
 	// Complements
 	if err := calculateComplements(doc.getComplements()); err != nil {
 		return validation.Errors{"complements": err}
@@ -392,25 +387,40 @@ func removeIncludedTaxes(doc billable) error {
 	return nil
 }
 
+// applyCustomerRates deals with the customer-rates tag by setting the customer's
+// country on the taxes of every row. It is applied while normalizing, after the
+// customer and before the rows, so that the normalizers see the same country
+// the first time a document is calculated as in any later calculation.
 func applyCustomerRates(doc billable) {
+	if !doc.HasTags(tax.TagCustomerRates) {
+		return
+	}
 	if doc.getCustomer() == nil || doc.getCustomer().TaxID == nil {
 		return
 	}
 	country := doc.getCustomer().TaxID.Country
 	for _, l := range doc.getLines() {
-		addCountryToTaxes(l.Taxes, country)
+		if l != nil {
+			addCountryToTaxes(l.Taxes, country)
+		}
 	}
 	for _, d := range doc.getDiscounts() {
-		addCountryToTaxes(d.Taxes, country)
+		if d != nil {
+			addCountryToTaxes(d.Taxes, country)
+		}
 	}
 	for _, c := range doc.getCharges() {
-		addCountryToTaxes(c.Taxes, country)
+		if c != nil {
+			addCountryToTaxes(c.Taxes, country)
+		}
 	}
 }
 
 func addCountryToTaxes(ts tax.Set, country l10n.TaxCountryCode) {
 	for _, t := range ts {
-		t.Country = country
+		if t != nil {
+			t.Country = country
+		}
 	}
 }
 
